@@ -1,3 +1,4 @@
+import OvniModel.Props.C08Stack
 import OvniModel.Emu.Chan
 import OvniModel.Emu.Core
 import OvniModel.Emu.View
@@ -13,253 +14,6 @@ followed by the flush of `bay_propagate`.
 set_option linter.unusedSimpArgs false
 namespace Ovni.Props.C08
 open Ovni.Emu Ovni.Generated
-
-/-- The enter/leave operations of one channel. -/
-inductive SOp where
-  | push (v : Int)
-  | pop (v : Int)
-deriving DecidableEq, Repr
-
-/-- Implementation side: operation, then flush (one event). -/
-def applyOp (maxStack : Nat) (c : Chan) : SOp → Except Err Chan
-  | .push v => (c.push maxStack (.int v)).map Chan.flush
-  | .pop v => (c.pop (.int v)).map Chan.flush
-
-def runOps (maxStack : Nat) : Chan → List SOp → Except Err Chan
-  | c, [] => .ok c
-  | c, op :: ops => match applyOp maxStack c op with
-    | .error e => .error e
-    | .ok c' => runOps maxStack c' ops
-
-/-- Specification, written from the property text: a leave must match the
-    innermost open region; an enter must not re-enter the innermost open region
-    (unless the channel allows duplicates) nor exceed the depth limit. -/
-def specOp (maxStack : Nat) (allowDup : Bool) (stk : List Int) : SOp → Option (List Int)
-  | .push v =>
-    if !allowDup && stk.getLast? = some v then none
-    else if stk.length ≥ maxStack then none
-    else some (stk ++ [v])
-  | .pop v => if stk.getLast? = some v then some stk.dropLast else none
-
-def specRun (maxStack : Nat) (allowDup : Bool) : List Int → List SOp → Option (List Int)
-  | stk, [] => some stk
-  | stk, op :: ops => match specOp maxStack allowDup stk op with
-    | none => none
-    | some stk' => specRun maxStack allowDup stk' ops
-
-/-- A flushed stack channel holding `stk`. -/
-structure Rep (c : Chan) (stk : List Int) : Prop where
-  isStack : c.isStack = true
-  vals : c.vals = stk.map Value.int
-  clean : c.dirty = false
-  last : c.last = c.cur
-  noIgnore : c.ignoreDup = false
-
-theorem getLast_map_int (stk : List Int) :
-    (stk.map Value.int).getLast? = stk.getLast?.map Value.int := by
-  simp [List.getLast?_map]
-
-theorem cur_of_rep {c : Chan} {stk : List Int} (h : Rep c stk) :
-    c.cur = match stk.getLast? with | some v => .int v | none => .null := by
-  unfold Chan.cur
-  rw [h.vals, getLast_map_int]
-  cases stk.getLast? <;> rfl
-
-/-- **The timeline shows the innermost open region** (nothing when none is open). -/
-theorem view_is_top {c : Chan} {stk : List Int} (h : Rep c stk) :
-    c.cur = match stk.getLast? with | some v => .int v | none => .null := cur_of_rep h
-
-theorem rep_flush_push {c : Chan} {stk : List Int} (h : Rep c stk) (v : Int) :
-    Rep ({ c with vals := c.vals ++ [Value.int v], dirty := true } : Chan).flush (stk ++ [v]) := by
-  refine ⟨?_, ?_, ?_, ?_, ?_⟩
-  · simp [Chan.flush, h.isStack]
-  · simp [Chan.flush, h.vals]
-  · simp [Chan.flush]
-  · simp [Chan.flush, Chan.cur]
-  · simp [Chan.flush, h.noIgnore]
-
-theorem rep_flush_pop {c : Chan} {stk : List Int} (h : Rep c stk) :
-    Rep ({ c with vals := c.vals.dropLast, dirty := true } : Chan).flush stk.dropLast := by
-  refine ⟨?_, ?_, ?_, ?_, ?_⟩
-  · simp [Chan.flush, h.isStack]
-  · simp [Chan.flush, h.vals, List.map_dropLast]
-  · simp [Chan.flush]
-  · simp [Chan.flush, Chan.cur]
-  · simp [Chan.flush, h.noIgnore]
-
-theorem last_of_rep {c : Chan} {stk : List Int} (h : Rep c stk) (v : Int) :
-    (c.last = Value.int v) ↔ stk.getLast? = some v := by
-  rw [h.last, cur_of_rep h]
-  cases stk.getLast? with
-  | none => simp
-  | some t =>
-    constructor
-    · intro hh; cases hh; rfl
-    · intro hh; cases hh; rfl
-
-theorem push_ok {c : Chan} {stk : List Int} (h : Rep c stk) (maxStack : Nat) (v : Int)
-    (hd : c.allowDup = true ∨ stk.getLast? ≠ some v) (hf : stk.length < maxStack) :
-    c.push maxStack (.int v) = .ok { c with vals := c.vals ++ [Value.int v], dirty := true } := by
-  have hlen : c.vals.length = stk.length := by rw [h.vals]; simp
-  unfold Chan.push
-  rw [if_neg (by simp [h.isStack]), if_neg (by simp [h.clean])]
-  have hnd : ¬ ((!c.allowDup && decide (c.last = Value.int v)) = true) := by
-    simp only [Bool.and_eq_true, Bool.not_eq_true', decide_eq_true_eq, not_and]
-    intro ha hl
-    rcases hd with hd | hd
-    · rw [hd] at ha; cases ha
-    · exact hd ((last_of_rep h v).1 hl)
-  rw [if_neg hnd, if_neg (by omega)]
-
-theorem push_err {c : Chan} {stk : List Int} (h : Rep c stk) (maxStack : Nat) (v : Int)
-    (hd : (c.allowDup = false ∧ stk.getLast? = some v) ∨ stk.length ≥ maxStack) :
-    ∃ e, c.push maxStack (.int v) = .error e := by
-  have hlen : c.vals.length = stk.length := by rw [h.vals]; simp
-  unfold Chan.push
-  rw [if_neg (by simp [h.isStack]), if_neg (by simp [h.clean])]
-  by_cases hdup : (!c.allowDup && decide (c.last = Value.int v)) = true
-  · rw [if_pos hdup, h.noIgnore]; exact ⟨_, rfl⟩
-  · rw [if_neg hdup]
-    rcases hd with ⟨ha, hl⟩ | hfull
-    · exfalso; apply hdup
-      simp [ha, (last_of_rep h v).2 hl]
-    · rw [if_pos (by omega)]; exact ⟨_, rfl⟩
-
-theorem pop_ok {c : Chan} {stk : List Int} (h : Rep c stk) (v : Int) (ht : stk.getLast? = some v) :
-    c.pop (.int v) = .ok { c with vals := c.vals.dropLast, dirty := true } := by
-  unfold Chan.pop
-  rw [if_neg (by simp [h.isStack]), if_neg (by simp [h.clean])]
-  have : c.vals.getLast? = some (Value.int v) := by rw [h.vals, getLast_map_int, ht]; rfl
-  rw [this]
-  simp
-
-theorem pop_err {c : Chan} {stk : List Int} (h : Rep c stk) (v : Int) (ht : stk.getLast? ≠ some v) :
-    ∃ e, c.pop (.int v) = .error e := by
-  unfold Chan.pop
-  rw [if_neg (by simp [h.isStack]), if_neg (by simp [h.clean])]
-  rw [h.vals, getLast_map_int]
-  cases hl : stk.getLast? with
-  | none => exact ⟨_, rfl⟩
-  | some top =>
-    have hne : top ≠ v := by intro hh; subst hh; exact ht hl
-    have : (Value.int top ≠ Value.int v) := by intro hh; cases hh; exact hne rfl
-    simp only [Option.map_some]
-    rw [if_pos this]; exact ⟨_, rfl⟩
-
-/-- One event: the implementation accepts exactly when the specification does,
-    and the representation is kept. -/
-theorem applyOp_iff (maxStack : Nat) (c : Chan) (stk : List Int) (h : Rep c stk) (op : SOp) :
-    (∀ stk', specOp maxStack c.allowDup stk op = some stk' →
-        ∃ c', applyOp maxStack c op = .ok c' ∧ Rep c' stk' ∧ c'.allowDup = c.allowDup) ∧
-    (specOp maxStack c.allowDup stk op = none → ∃ e, applyOp maxStack c op = .error e) := by
-  cases op with
-  | push v =>
-    simp only [specOp, applyOp]
-    by_cases hdup : (!c.allowDup && decide (stk.getLast? = some v)) = true
-    · rw [if_pos hdup]
-      simp only [Bool.and_eq_true, Bool.not_eq_true', decide_eq_true_eq] at hdup
-      obtain ⟨e, he⟩ := push_err h maxStack v (Or.inl hdup)
-      rw [he]
-      exact ⟨fun _ hh => (by cases hh), fun _ => ⟨e, rfl⟩⟩
-    · rw [if_neg hdup]
-      by_cases hf : stk.length ≥ maxStack
-      · rw [if_pos hf]
-        obtain ⟨e, he⟩ := push_err h maxStack v (Or.inr hf)
-        rw [he]
-        exact ⟨fun _ hh => (by cases hh), fun _ => ⟨e, rfl⟩⟩
-      · rw [if_neg hf]
-        have hd : c.allowDup = true ∨ stk.getLast? ≠ some v := by
-          simp only [Bool.and_eq_true, Bool.not_eq_true', decide_eq_true_eq, not_and] at hdup
-          cases ha : c.allowDup with
-          | true => exact Or.inl rfl
-          | false => exact Or.inr (hdup ha)
-        rw [push_ok h maxStack v hd (by omega)]
-        refine ⟨fun stk' hs => ?_, fun hn => by cases hn⟩
-        cases hs
-        exact ⟨_, rfl, rep_flush_push h v, by simp [Chan.flush]⟩
-  | pop v =>
-    simp only [specOp, applyOp]
-    by_cases ht : stk.getLast? = some v
-    · rw [if_pos ht, pop_ok h v ht]
-      refine ⟨fun stk' hs => ?_, fun hn => by cases hn⟩
-      cases hs
-      exact ⟨_, rfl, rep_flush_pop h, by simp [Chan.flush]⟩
-    · rw [if_neg ht]
-      obtain ⟨e, he⟩ := pop_err h v ht
-      rw [he]
-      exact ⟨fun _ hh => (by cases hh), fun _ => ⟨e, rfl⟩⟩
-
-/-- **C08 (nesting).** A history of enter/leave events on a thread's channel
-    is accepted by the channel machinery exactly when it is properly nested:
-    every leave matches the innermost open region, no enter exceeds the depth
-    limit and (for channels without `ALLOW_DUP`) none re-enters the innermost
-    open region.  Unbounded history length, any depth limit. -/
-theorem nesting_accept_iff (maxStack : Nat) (ops : List SOp) (c : Chan) (stk : List Int)
-    (h : Rep c stk) :
-    (∀ stk', specRun maxStack c.allowDup stk ops = some stk' →
-        ∃ c', runOps maxStack c ops = .ok c' ∧ Rep c' stk') ∧
-    (specRun maxStack c.allowDup stk ops = none → ∃ e, runOps maxStack c ops = .error e) := by
-  induction ops generalizing c stk with
-  | nil =>
-    constructor
-    · intro stk' hs
-      simp only [specRun, Option.some.injEq] at hs
-      subst hs
-      exact ⟨c, rfl, h⟩
-    · intro hn; simp [specRun] at hn
-  | cons op ops ih =>
-    obtain ⟨hok, herr⟩ := applyOp_iff maxStack c stk h op
-    simp only [specRun, runOps]
-    cases hs : specOp maxStack c.allowDup stk op with
-    | none =>
-      obtain ⟨e, he⟩ := herr hs
-      rw [he]
-      exact ⟨fun _ hh => (by cases hh), fun _ => ⟨e, rfl⟩⟩
-    | some stk1 =>
-      obtain ⟨c1, hc1, hrep1, hd1⟩ := hok stk1 hs
-      rw [hc1]
-      simp only
-      have := ih c1 stk1 hrep1
-      rw [hd1] at this
-      exact this
-
-/-- Every properly nested history that never re-enters the innermost open
-    region and stays within the depth limit is accepted, on every channel. -/
-theorem nonreentering_accepted (maxStack : Nat) (ops : List SOp) (c : Chan) (stk stk' : List Int)
-    (h : Rep c stk) (hs : specRun maxStack false stk ops = some stk') :
-    ∃ c', runOps maxStack c ops = .ok c' ∧ Rep c' stk' := by
-  -- accepted by the stricter (no-duplicate) specification ⇒ accepted whatever the dup property
-  have mono : ∀ (ops : List SOp) (stk stk' : List Int) (d : Bool),
-      specRun maxStack false stk ops = some stk' → specRun maxStack d stk ops = some stk' := by
-    intro ops
-    induction ops with
-    | nil => intro stk stk' d hh; exact hh
-    | cons op ops ih =>
-      intro stk stk' d hh
-      simp only [specRun] at hh ⊢
-      cases h1 : specOp maxStack false stk op with
-      | none => rw [h1] at hh; cases hh
-      | some s1 =>
-        rw [h1] at hh
-        have h2 : specOp maxStack d stk op = some s1 := by
-          cases op with
-          | push v =>
-            simp only [specOp, Bool.not_false, Bool.true_and] at h1 ⊢
-            split at h1
-            · cases h1
-            · rename_i hne
-              split at h1
-              · cases h1
-              · rename_i hf
-                cases h1
-                have : ¬ ((!d && decide (stk.getLast? = some v)) = true) := by
-                  simp only [Bool.and_eq_true, decide_eq_true_eq, not_and]
-                  intro _ hx; exact hne (by simpa using hx)
-                simp [this, hf]
-          | pop v => exact h1
-        rw [h2]
-        exact ih s1 stk' d hh
-  exact (nesting_accept_iff maxStack ops c stk h).1 stk' (mono ops stk stk' c.allowDup hs)
 
 /-- In lint mode a trace that ends with an open subsystem / function region of
     an enabled model is rejected. -/
